@@ -196,6 +196,7 @@ StepRules(e) ==
           \cup (IF f.pc >= 0 /\ e.pc # f.pc THEN {"pc:unexpected program counter"} ELSE {})
           \cup (IF f.stk >= 0 /\ e.stk # f.stk THEN {"stack:unexpected stack height"} ELSE {})
           \cup (IF e.err = "" /\ e.gas >= 0 /\ e.cost >= 0 /\ e.cost > e.gas THEN {"oog:cost exceeds gas but no error"} ELSE {})
+          \cup (IF e.err = "" /\ valid /\ (e.stk < t.pops \/ e.stk - t.pops + t.pushes > 1024) THEN {"stacklimit:the instruction ran although the stack has too few items for it or would exceed 1024"} ELSE {})
           \cup (IF e.err = "" /\ valid /\ t.gas >= 0 /\ e.cost >= 0 /\ e.cost # t.gas THEN {"constgas:constant-price opcode charged differently"} ELSE {})
           \cup (IF e.err = "" /\ valid /\ DynCost(e) >= 0 /\ e.cost >= 0 /\ e.cost # DynCost(e) THEN {"memgas:memory/copy/hash/log/exp price differs from the schedule"} ELSE {})
           \cup (IF e.err = "" /\ valid /\ ForkPrices(e.op) # {} /\ e.cost >= 0 /\ e.cost \notin ForkPrices(e.op) THEN {"forkgas:state-access price not in the fork's schedule"} ELSE {})
